@@ -213,6 +213,16 @@ class Check:
         if not ok:
             tail = "\n".join(log.strip().splitlines()[-40:])
             self.broken.append({"kind": "proof", "file": props_file, "coq_output_tail": tail})
+        elif self.tier == "thorough":
+            # independent re-check of the compiled property file and everything it depends on
+            lib = "TV." + props_file[:-2].replace("/", ".")
+            rc, out, err = sh(["timeout", "1500", "coqchk", "-silent", "-o", "-Q", ".", "TV", lib], cwd=COQ, timeout=1530)
+            txt = out + err
+            self.extra["coqchk"] = {"exit": rc, "library": lib,
+                                    "axioms": re.findall(r"^\s+([A-Za-z_][\w.']*)\s*$", txt.split("* Axioms:")[-1], flags=re.M)[:60] if "* Axioms:" in txt else [],
+                                    "tail": txt.strip().splitlines()[-6:]}
+            if rc != 0 and rc != 124:
+                self.broken.append({"kind": "proof", "file": props_file, "coqchk_output_tail": txt[-2000:]})
         return ok
 
     def coq_eval(self, name: str, text: str, timeout: int = 900) -> tuple[bool, str]:
@@ -329,8 +339,11 @@ class Check:
             "wall_s": round(wall, 2),
             "violations": len(self.violations),
         }
-        (VERIF / "evidence").mkdir(exist_ok=True)
-        (VERIF / "evidence" / f"{self.prop}.json").write_text(json.dumps(ev, indent=1, default=str))
+        # evidence is only ever written for runs against /repo itself; runs pointed at a scratch
+        # tree (VERIF_REPO, used to try the checks on seeded defects) leave it alone
+        evdir = VERIF / "evidence" if str(REPO) == "/repo" else BUILD / "evidence_scratch"
+        evdir.mkdir(parents=True, exist_ok=True)
+        (evdir / f"{self.prop}.json").write_text(json.dumps(ev, indent=1, default=str))
         for k in self.known:
             print(k)
         for i in self.info:
